@@ -7,6 +7,7 @@ document is replayed into soupsieve.select.
 B2: seeded random documents and range lists over a larger subtag alphabet are run through the real
 select(), recorded, and validated by TLC against the same specification (spec/Trace_Select.tla)."""
 import json
+import os
 import random
 
 from harness import common, replay
@@ -15,6 +16,10 @@ from harness.common import cps
 # The pragma of XHTML documents (XML parser, root in the XHTML namespace) is part of the property's
 # quantifier ("with and without the <meta> pragma, in HTML, XHTML and XML"): gated.
 GATE_XHTML_META = True
+# The pragma of the document inside an iframe: the property does not say whose pragma applies to iframe
+# content (the specification reads it as the pragma of the element's own document): recorded as drift.
+# C13_GATE_INNER=1 in the environment gates it (for trying a fix).
+GATE_INNER_PRAGMA = os.environ.get('C13_GATE_INNER', '') == '1'
 
 
 class _Drift:
@@ -57,22 +62,21 @@ def main(tier):
     mc = 3 if q else 4
     metas = ['none', 'en', 'empty'] if q else ['none', 'en', 'empty', 'nocontent', 'other']
     ips = [0] + list(range(2, mc + 1))
-    base = {'MaxChain': mc, 'Metas': tla_set(metas), 'IframeAts': tla_set(ips), 'Inners': tla_set(['none'])}
+    base = {'MaxChain': mc, 'Modes': tla_set(['html', 'mixed', 'xml', 'xhtml']), 'Metas': tla_set(metas),
+            'IframeAts': tla_set(ips), 'Inners': tla_set(['none']), 'XhtmlMeta': 'FALSE'}
     inv = ('Emit', 'Laws')
-    replay.run_cfg(chk, 'MC_C13_determ', dict(base, Modes=tla_set(['html', 'mixed'])), 'determ-html', invariants=inv)
-    replay.run_cfg(chk, 'MC_C13_determ', dict(base, Modes=tla_set(['xml'])), 'determ-xml', invariants=inv)
-    # XHTML: without a pragma (nothing but attributes) and with one
-    replay.run_cfg(chk, 'MC_C13_determ', dict(base, Modes=tla_set(['xhtml']), Metas=tla_set(['none'])),
-                   'determ-xhtml', invariants=inv)
+    # HTML, html5lib-style, XML with every pragma state; XHTML without a pragma
+    replay.run_cfg(chk, 'MC_C13_determ', base, 'determ', invariants=inv)
+    # XHTML with a pragma
     replay.run_cfg(chk if GATE_XHTML_META else drift, 'MC_C13_determ',
-                   dict(base, Modes=tla_set(['xhtml']), Metas=tla_set([m for m in metas if m != 'none'])),
-                   'determ-xhtml-meta', invariants=inv)
+                   dict(base, Modes=tla_set(['xhtml']), XhtmlMeta='TRUE'), 'determ-xhtml-meta', invariants=inv)
     # ungated: the pragma of the document inside an iframe (the property does not say whose pragma
     # applies there; the specification reads it as the pragma of the element's own document)
-    replay.run_cfg(drift, 'MC_C13_determ',
-                   dict(base, MaxChain=mc + 1, IframeAts=tla_set([2, 3]), Modes=tla_set(['html', 'xhtml']),
-                        Metas=tla_set(['none', 'en']), Inners=tla_set(['de', 'empty'])),
-                   'determ-inner(ungated)', invariants=inv)
+    replay.run_cfg(chk if GATE_INNER_PRAGMA else drift, 'MC_C13_determ',
+                   dict(base, IframeAts=tla_set([2] if q else [2, 3]),
+                        Modes=tla_set(['html'] if q else ['html', 'xhtml']), Metas=tla_set(['none', 'en']),
+                        Inners=tla_set(['de'] if q else ['de', 'empty'])),
+                   'determ-inner' if GATE_INNER_PRAGMA else 'determ-inner(ungated)', invariants=inv)
 
     trace_part(chk, tier)
     return chk.finish()
